@@ -146,21 +146,11 @@ func runC18(c *Ctx) {
 	// state is corrupted (bufio.Writer, bytes.Buffer) unless the writer itself is serialised. *os.File is: one write
 	// system call per line.
 	for _, fn := range fns {
-		byWriter := map[string][]ssa.Instruction{}
-		var vals = map[string]ssa.Value{}
-		core.EachInstr(fn, func(in ssa.Instruction) {
-			call, ok := in.(*ssa.Call)
-			if !ok || call.Call.StaticCallee() == nil || core.FullName(call.Call.StaticCallee()) != "log.New" {
-				return
-			}
-			w := core.StripConv(call.Call.Args[0])
-			k := core.Path(w)
-			if strings.HasPrefix(k, "%") {
-				k = w.Name()
-			}
-			byWriter[k] = append(byWriter[k], in)
-			vals[k] = w
-		})
+		cs := loggerCreations(P, fn, 0)
+		byWriter := map[string][]loggerCreation{}
+		for _, lc := range cs {
+			byWriter[lc.under] = append(byWriter[lc.under], lc)
+		}
 		var keys []string
 		for k := range byWriter {
 			keys = append(keys, k)
@@ -170,29 +160,32 @@ func runC18(c *Ctx) {
 			if len(byWriter[k]) < 2 || strings.HasSuffix(k, "Discard") {
 				continue
 			}
-			w := vals[k]
+			w := byWriter[k][0].underV
 			why := ""
 			switch {
 			case strings.HasSuffix(types.TypeString(w.Type(), nil), "os.File"):
 				why = "an *os.File (one write system call per line)"
 			default:
-				if lockedWriterType(P, w.Type()) {
-					why = "a writer whose Write holds a mutex around the inner write"
+				// all of them go through one and the same serialising writer object
+				lock, same := byWriter[k][0].lock, true
+				for _, lc := range byWriter[k] {
+					same = same && lc.lock == lock
+				}
+				if same && lock != "" {
+					why = "one writer object whose Write holds a mutex around the inner write (" + lock + ")"
 				}
 			}
-			R.Check(why != "", "C18.oneline", "logger|"+core.FuncName(fn)+"|loggers-sharing-"+k+"-are-serialised", P.InstrPos(byWriter[k][0]),
+			R.Check(why != "", "C18.oneline", "logger|"+core.FuncName(fn)+"|loggers-sharing-"+k+"-are-serialised", P.InstrPos(byWriter[k][0].site),
 				fmt.Sprintf("the %d loggers created over %s write to %s", len(byWriter[k]), k, why),
-				fmt.Sprintf("%d loggers, each with its own mutex, are created over the same writer %s: calls at different levels write to it concurrently, so lines can interleave and a writer that is not safe for concurrent use (bufio.Writer, bytes.Buffer) is raced on", len(byWriter[k]), k), nil)
+				fmt.Sprintf("%d loggers, each with its own mutex, are created over the same writer %s and do not share one serialising writer: calls at different levels write to it concurrently, so lines can interleave and a writer that is not safe for concurrent use (bufio.Writer, bytes.Buffer) is raced on", len(byWriter[k]), k), nil)
 		}
 	}
 
 	// ---- C18.oneline: the formatting helpers build a new operand list; they do not write into the caller's variadic slice
 	// (with spare capacity behind it, the caller's own values - or another goroutine's - would be overwritten)
-	for _, name := range []string{"(*loggerPlus).format", "(*loggerPlus).formatf", "(*loggerPlus).contextFormat", "(*loggerPlus).contextFormatf"} {
-		fn := P.Func("logger", name)
-		if !R.Anchor(fn != nil, "C18.oneline", "logger."+name) {
-			continue
-		}
+	fmtAll, _ := c18Formatters(c, "C18.oneline")
+	for _, fn := range fmtAll {
+		name := core.FuncName(fn)
 		bad := ""
 		for _, prm := range fn.Params {
 			if _, isSlice := prm.Type().Underlying().(*types.Slice); isSlice {
@@ -207,11 +200,19 @@ func runC18(c *Ctx) {
 	}
 
 	// ---- C18.ctx
-	for _, pair := range [][2]string{{"(*loggerPlus).contextFormat", "format"}, {"(*loggerPlus).contextFormatf", "formatf"}} {
-		fn := P.Func("logger", pair[0])
-		if !R.Anchor(fn != nil, "C18.ctx", "logger."+pair[0]) {
-			continue
+	_, fmtCallers := c18Formatters(c, "C18.ctx")
+	type fmtPair struct {
+		fn   *ssa.Function
+		base string
+	}
+	var fmtPairs []fmtPair
+	for _, base := range []string{"format", "formatf"} {
+		for _, g := range fmtCallers[base] {
+			fmtPairs = append(fmtPairs, fmtPair{g, base})
 		}
+	}
+	for _, fp := range fmtPairs {
+		fn, pair := fp.fn, [2]string{core.FuncName(fp.fn), fp.base}
 		n := 0
 		core.EachInstr(fn, func(in ssa.Instruction) {
 			call, ok := in.(*ssa.Call)
@@ -395,11 +396,9 @@ func runC18(c *Ctx) {
 	}
 
 	// ---- C18.prefix: pid before cid in every variadic prefix
-	for _, name := range []string{"(*loggerPlus).format", "(*loggerPlus).formatf", "(*loggerPlus).contextFormat", "(*loggerPlus).contextFormatf"} {
-		fn := P.Func("logger", name)
-		if !R.Anchor(fn != nil, "C18.prefix", "logger."+name) {
-			continue
-		}
+	fmtAll2, _ := c18Formatters(c, "C18.prefix")
+	for _, fn := range fmtAll2 {
+		name := core.FuncName(fn)
 		// group stores into literal arrays by array
 		type slot struct {
 			idx int64
@@ -439,6 +438,38 @@ func runC18(c *Ctx) {
 	}
 }
 
+// c18Formatters: the id-object formatters format/formatf and, by role, the functions that call them (contextFormat and
+// contextFormatf on the pinned tree; Println/Printf when those are written in place).
+func c18Formatters(c *Ctx, rule string) (all []*ssa.Function, callers map[string][]*ssa.Function) {
+	P, R := c.P, c.R
+	callers = map[string][]*ssa.Function{}
+	for _, base := range []string{"format", "formatf"} {
+		f := P.Func("logger", "(*loggerPlus)."+base)
+		if !R.Anchor(f != nil, rule, "logger.(*loggerPlus)."+base) {
+			continue
+		}
+		all = append(all, f)
+		for _, g := range P.ModuleFuncs("logger") {
+			if g == f {
+				continue
+			}
+			calls := false
+			core.EachInstr(g, func(in ssa.Instruction) {
+				if call, ok := in.(*ssa.Call); ok && call.Call.StaticCallee() == f {
+					calls = true
+				}
+			})
+			if calls {
+				callers[base] = append(callers[base], g)
+				all = append(all, g)
+			}
+		}
+		name := map[string]string{"format": "contextFormat", "formatf": "contextFormatf"}[base]
+		R.Anchor(len(callers[base]) > 0, rule, "logger.(*loggerPlus)."+name)
+	}
+	return
+}
+
 func isCidValue(v ssa.Value) bool {
 	switch x := v.(type) {
 	case *ssa.Call:
@@ -462,6 +493,94 @@ func describeVal(v ssa.Value) string {
 		return "constant " + x.String()
 	}
 	return v.String()
+}
+
+// loggerCreation is one log.New reached from a function: the writer the lines finally go to (named in that function's
+// vocabulary) and the serialising wrapper object in between, if any.
+type loggerCreation struct {
+	site   ssa.Instruction
+	under  string
+	underV ssa.Value
+	lock   string // identity of the locked-writer object ("" = none; "fresh per call ..." = allocated by a helper)
+}
+
+// unwrapLocked: a freshly allocated locked writer (a module type whose Write holds a mutex) stands for the writer stored
+// in it; the allocation is the lock's identity.
+func unwrapLocked(P *core.Program, v ssa.Value) (ssa.Value, string) {
+	v = core.StripConv(v)
+	al, ok := v.(*ssa.Alloc)
+	if !ok || !lockedWriterType(P, al.Type()) {
+		return v, ""
+	}
+	var inner ssa.Value
+	for _, r := range *al.Referrers() {
+		fa, ok := r.(*ssa.FieldAddr)
+		if !ok {
+			continue
+		}
+		for _, r2 := range *fa.Referrers() {
+			if st, ok := r2.(*ssa.Store); ok && st.Addr == ssa.Value(fa) {
+				if _, isIface := st.Val.Type().Underlying().(*types.Interface); isIface {
+					inner = core.StripConv(st.Val)
+				}
+			}
+		}
+	}
+	if inner == nil {
+		return v, ""
+	}
+	return inner, "allocated at " + P.InstrPos(al)
+}
+
+// loggerCreations lists the log.New calls of fn and of the module helpers it calls (the writer handed to a helper is
+// followed through the helper's parameter).
+func loggerCreations(P *core.Program, fn *ssa.Function, depth int) []loggerCreation {
+	var out []loggerCreation
+	core.EachInstr(fn, func(in ssa.Instruction) {
+		call, ok := in.(*ssa.Call)
+		if !ok || call.Call.StaticCallee() == nil {
+			return
+		}
+		f := call.Call.StaticCallee()
+		if core.FullName(f) == "log.New" {
+			under, lock := unwrapLocked(P, call.Call.Args[0])
+			k := core.Path(under)
+			if strings.HasPrefix(k, "%") {
+				k = under.Name()
+			}
+			out = append(out, loggerCreation{in, k, under, lock})
+			return
+		}
+		if depth >= 2 || !core.InModule(f) || core.ShortPkg(f) != core.ShortPkg(fn) || len(f.Blocks) == 0 || f == fn {
+			return
+		}
+		for _, lc := range loggerCreations(P, f, depth+1) {
+			par, isPar := lc.underV.(*ssa.Parameter)
+			if !isPar {
+				continue // a writer of the helper's own (a constant destination): not shared through this call
+			}
+			idx := -1
+			for i, p := range f.Params {
+				if p == par {
+					idx = i
+				}
+			}
+			if idx < 0 || idx >= len(call.Call.Args) {
+				continue
+			}
+			under, lock := unwrapLocked(P, call.Call.Args[idx])
+			if lc.lock != "" {
+				// the helper wraps the writer itself: a new lock object on every call
+				lock = "fresh per call of " + core.FuncName(f) + " at " + P.InstrPos(call)
+			}
+			k := core.Path(under)
+			if strings.HasPrefix(k, "%") {
+				k = under.Name()
+			}
+			out = append(out, loggerCreation{in, k, under, lock})
+		}
+	})
+	return out
 }
 
 // lockedWriterType: t is (a pointer to) a module type whose Write method calls the inner Write while a mutex of the
